@@ -202,7 +202,14 @@ func judgeC08(c *core.Case, cfg *core.Config) core.Verdict {
 				defer wg.Done()
 				<-start
 				src := b.Progs[k%len(b.Progs)].Src
-				p, err := compile(src, opts...)
+				o := opts
+				if k%2 == 1 {
+					// non-strict compilation of a source that mentions names the environment lacks, through the
+					// very same Env option value the other compilations use
+					o = append(append([]expr.Option{}, opts...), expr.AllowUndefinedVariables())
+					src = "(" + src + ") == Missing" + fmt.Sprint(k) + " or Undefined" + fmt.Sprint(k%3) + " == nil"
+				}
+				p, err := compile(src, o...)
 				if err == nil {
 					_, _ = run(p, envs[k%len(envs)])
 				}
@@ -210,6 +217,12 @@ func judgeC08(c *core.Case, cfg *core.Config) core.Verdict {
 		}
 		close(start)
 		wg.Wait()
+		if b.Compiles > 1 {
+			if _, err := compile("Missing1", opts...); err == nil {
+				v.Violation = "after non-strict compilations through the same Env option, a strict Compile of the unknown name `Missing1` succeeds"
+				return v
+			}
+		}
 		if rep := c08RaceReport(); rep != "" {
 			v.Violation = "the race detector reports an unsynchronised access during the batch:\n" + rep
 			return v
